@@ -312,6 +312,36 @@ func vfC13Judge(w *vfWorld, cfg *vfCfg, sc *vfC13Scenario, b *vfBrowser, r *vfRe
 			}
 		}
 	}
+	if !writeAcked && w.redis != nil {
+		// a write that was repeated and acknowledged afterwards IS persisted: only the last write of the key counts
+		evs := w.redis.Events()
+		for _, ev := range fired {
+			if ev.Name != "SET" || ev.IsLock {
+				continue
+			}
+			for _, later := range evs {
+				if later.Idx > ev.Idx && later.Name == "SET" && later.Key == ev.Key && later.Err == "" && later.Fault.Kind == vfRFNone {
+					writeAcked = true
+				}
+			}
+		}
+		for _, ev := range fired {
+			// ... unless a later write of that key failed again
+			for _, later := range evs {
+				if later.Idx > ev.Idx && later.Name == "SET" && later.Key == ev.Key && later.Err != "" {
+					last := true
+					for _, l2 := range evs {
+						if l2.Idx > later.Idx && l2.Name == "SET" && l2.Key == later.Key && l2.Err == "" {
+							last = false
+						}
+					}
+					if last {
+						writeAcked = false
+					}
+				}
+			}
+		}
+	}
 	served := len(r.UpHits) > 0 || r.Status == 202 || (sc.Name == "userinfo" && r.Status == 200 && len(r.Body) > 3)
 	okStatus := map[int]bool{200: true, 202: true, 302: true, 401: true, 403: true, 500: true, 502: true, 503: true}
 	if !okStatus[r.Status] {
